@@ -88,6 +88,7 @@ def als(I_trn, y_trn, Y0, nswp=50, e=1.E-16, info={}, *, I_vld=None, y_vld=None,
     assert r is None or update_sol is None, "Cannot update core of non-constant rank"
 
     info.update({'e': -1, 'e_vld': -1, 'nswp': 0, 'stop': None})
+    info.pop('rearrange', None)
     info['r'] = teneva.erank(Y0)
 
     I_trn = np.asanyarray(I_trn, dtype=int)
